@@ -81,7 +81,7 @@ class Check:
             world['faults'] = faults
             return {'family': 'deadreckon', 'world': world, 'gains': {'madgwick': 10 ** rnd.uniform(-2, 0), 'kP': 10 ** rnd.uniform(-1, 0.7),
                     'kI': 10 ** rnd.uniform(-2, 0), 'alpha': 10 ** rnd.uniform(-2, -0.3)}, 'b0': [rnd.gauss(0, 0.05) for _ in range(3)],
-                    'dt_call': rnd.random() < 0.5, 'dt_route': rnd.choice(['Dt', 'Dt', 'call', 'mixed']), 'late_seed': rnd.randrange(1 << 30)}
+                    'dt_call': rnd.random() < 0.5, 'dt_route': rnd.choice(['Dt', 'Dt', 'call', 'mixed', 'attr']), 'late_seed': rnd.randrange(1 << 30)}
         n = rnd.choice([10, 60, 200] + ([600] if big else []))
         world = W.gen_world(rnd, n, allow_kicks=False, noise=False, max_rate=10.0)
         return {'family': 'recorder', 'world': world, 'order': rnd.choice(['H', 'H', 'S'])}
